@@ -183,11 +183,17 @@ def _alarm(signum, frame):
 
 def with_timeout(f, seconds=2.0):
     old = signal.signal(signal.SIGALRM, _alarm)
-    signal.setitimer(signal.ITIMER_REAL, seconds)
     try:
+        # repeating: nipy has bare `except:` clauses that would swallow a single alarm
+        signal.setitimer(signal.ITIMER_REAL, seconds, 0.02)
         return f()
     finally:
-        signal.setitimer(signal.ITIMER_REAL, 0)
+        while True:
+            try:
+                signal.setitimer(signal.ITIMER_REAL, 0)
+                break
+            except _Timeout:
+                continue
         signal.signal(signal.SIGALRM, old)
 
 
